@@ -15,10 +15,11 @@ Definition leaf_ok (k : leafR) (n : nat) : Prop :=
   | FL1 | FL2 | FL2Sq | FConst _ | FIndZero _ | FBallInf | FBall2 => True
   | FBox lo hi => bound_ok n lo /\ bound_ok n hi
   | FHuber gamma => 0 <= gamma
+  | FGroupL1 _ _ false | FGroupBall _ _ false => True     (* pointwise exponent 1 / inf: same code path as L1 / max-norm ball *)
   | _ => False
   end.
 Definition leaf_vec_ok (k : leafR) : Prop :=
-  match k with FL1 | FL2Sq | FConst _ | FBox _ _ | FIndZero _ => True | _ => False end.
+  match k with FL1 | FL2Sq | FConst _ | FBox _ _ | FIndZero _ | FGroupL1 _ _ false => True | _ => False end.
 Definition leaf_sig_ok (k : leafR) (n : nat) (s : sigR) : Prop :=
   match s with
   | SScal sg => 0 < sg
@@ -192,6 +193,15 @@ Proof.
   - (* Huber *)
     destruct s as [sg|v|a b]; cbn [leaf_sig_ok leaf_vec_ok] in Hs; [|tauto|contradiction].
     cbn [needs_scalar]. eexists; split; [reflexivity|]. apply huber_leaf_prox; auto.
+  - (* GroupL1Norm with pointwise exponent 1 *)
+    destruct two; [contradiction|].
+    destruct s as [sg|v|a b]; [| |contradiction]; eexists; (split; [reflexivity|]);
+      apply (is_proxs_ext n (@leaf_val R _ _ FL1 w)); try reflexivity; apply l1_leaf_prox; auto.
+  - (* IndicatorGroupL1UnitBall with pointwise exponent inf *)
+    destruct two; [contradiction|].
+    destruct s as [sg|v|a b]; cbn [leaf_sig_ok leaf_vec_ok] in Hs; [|tauto|contradiction].
+    cbn [needs_scalar]. eexists; split; [reflexivity|].
+    apply (is_proxs_ext n (@leaf_val R _ _ FBallInf w)); try reflexivity. apply ballinf_leaf_prox; auto.
 Qed.
 
 (* ---- the constant of proximal_quadratic_perturbation ---- *)
